@@ -238,6 +238,18 @@ def finding_id(c, impl_obs, kind):
         return "c11-needed-without-provided-ancestor"
     if kept - needed:
         return "c11-cutoff-producer-kept"
+    # the drop loop validates after every single drop: differing defaults of a parameter whose producer is dropped
+    cur = list(c["p"]["funcs"])
+    for f in [g for g in c["p"]["funcs"] if g["name"] not in kept]:
+        cur = [g for g in cur if g["name"] != f["name"]]
+        outs_now = {o for g in cur for o in g["outs"]}
+        seen = {}
+        for g in cur:
+            for k, v in pipegen.func_defaults(g):
+                if k in g["bound"] or k in outs_now:
+                    continue
+                if seen.setdefault(k, v) != v:
+                    return "c11-drop-loop-inconsistent-defaults"
     if c["kind"] == "map" and any(prod.get(n) in kept for n in I):
         return "c11-map-rejects-supplied-output-of-kept-function"
     declared = {cur for n in kept for cur in byname[n]["defs"]} | \
